@@ -829,6 +829,23 @@ fn sparse_ids_case(ids: &[u16], comp: Comp) -> CaseOut {
             Err(p) => return fail(&format!("panic {}", jbkmc::panic_site(&p)), p),
         }
     }
+    // the container check covers every pack that is present, whatever its id: one stored byte of
+    // each pack damaged in turn (bare pack file: the first cluster's data starts at byte 128)
+    for pid in ids {
+        let f = d.join(format!("pack{pid}.jbkc"));
+        let keep = std::fs::read(&f).unwrap();
+        if keep.len() <= 130 {
+            continue;
+        }
+        let mut b = keep.clone();
+        b[130] ^= 0x40;
+        std::fs::write(&f, &b).unwrap();
+        let chk = jbkmc::catch(|| jbk::reader::Container::new(&entry).and_then(|c| c.check()));
+        std::fs::write(&f, keep).unwrap();
+        if let Ok(Ok(true)) = chk {
+            return fail("check() passes although a present content pack is damaged (pack ids that are not 1..n)", format!("pack {pid} damaged at byte 130"));
+        }
+    }
     CaseOut { id, outcome: "ok:sparse pack ids".into(), violation: None }
 }
 
@@ -836,7 +853,7 @@ fn c11(args: &Args) -> ! {
     let mut rep = Report::new(
         "packmc",
         "C11",
-        "containers with n in {1,2,3} (thorough: 4) content packs in separate files, built by BasicCreator NoConcat+extras and by the low-level creators with the manifest listing the directory and the content packs in every order (n<=2, thorough n<=3) or in identity/reversed/rotated orders; every subset of the content packs x every way {removed, replaced by a directory, replaced by a different valid content pack with the same content count} per member (full product); the same with every non-empty subset of the packs also held inside the entry-point file (concat), where the file at the recorded location must not matter; plus containers whose content packs carry ids that are not 1..n ({5}, {1,5}, {5,1}, {2,3}, {300}, {1,300,2}, {256,255}, {65535,1}), each pack removed in turn; plus containers (n = 2, 3) whose content packs are all recorded with one and the same location string (tools::set_location), every subset held inside the entry-point file and the others removed: packs inside read, the others are MISSING with the rewritten description, check() true and false once a pack inside is damaged; oracle: opens, every entry as the model, available contents read, unavailable ones MISSING with the recorded uuid/id/location, check() true, unknown pack id -> none; non-trivial = at least one pack unavailable",
+        "containers with n in {1,2,3} (thorough: 4) content packs in separate files, built by BasicCreator NoConcat+extras and by the low-level creators with the manifest listing the directory and the content packs in every order (n<=2, thorough n<=3) or in identity/reversed/rotated orders; every subset of the content packs x every way {removed, replaced by a directory, replaced by a different valid content pack with the same content count} per member (full product); the same with every non-empty subset of the packs also held inside the entry-point file (concat), where the file at the recorded location must not matter; plus containers whose content packs carry ids that are not 1..n ({5}, {1,5}, {5,1}, {2,3}, {300}, {1,300,2}, {256,255}, {65535,1}), each pack removed in turn and each pack damaged in turn (check() must not pass); plus containers (n = 2, 3) whose content packs are all recorded with one and the same location string (tools::set_location), every subset held inside the entry-point file and the others removed: packs inside read, the others are MISSING with the rewritten description, check() true and false once a pack inside is damaged; oracle: opens, every entry as the model, available contents read, unavailable ones MISSING with the recorded uuid/id/location, check() true, unknown pack id -> none; non-trivial = at least one pack unavailable",
     );
     let t = args.thorough();
     let ways = [None, Some(Unavail::Removed), Some(Unavail::Directory), Some(Unavail::OtherPack)];
